@@ -42,6 +42,9 @@ SPECIAL = [
 ]
 
 
+HEAVY = ["$[?match(@.name, 'a.*')].id", "$[?search(@.s, 'b')].id", "$.items[?@.price < $.limit].name", "$.items[?length(@.name) == 4 && search(@.name, 'b')].id"]
+
+
 def make_doc(R):
     items = [{"name": R.choice(["a", "b", "ab", "ba", "c"]), "price": R.randint(0, 9), "id": i, "s": R.choice(["x", "ab", "b"]), "a": R.randint(0, 2)} for i in range(R.randint(1, 4))]
     d = {"items": items, "limit": R.randint(0, 9), "a": R.randint(0, 2), "n": R.randint(0, 3), "p": R.choice(["a.*", "x", "[ab]+"])}
@@ -269,6 +272,8 @@ def thread_run(jp, rec, R, run_id):
             shared[text] = env.compile(text)
         except Exception:  # noqa: BLE001
             pass
+    for text in HEAVY:
+        shared[text] = env.compile(text)
     shared_texts = sorted(shared)
     burst = ["$.b%d_%d[?@.x == %d]" % (run_id.__hash__() % 97, i, i) for i in range(40)]
     for t in range(T):
@@ -277,12 +282,19 @@ def thread_run(jp, rec, R, run_id):
             r = R.random()
             if r < 0.35 and shared_texts:
                 mine.append((R.choice(shared_texts), make_doc(R), "shared-" + R.choice(["list", "step"])))
-            elif r < 0.45:
+            elif r < 0.55:
                 # many distinct new query texts compiled back to back
-                for b in R.sample(burst, 6):
-                    mine.append((b + " ", None, "compile-only") if False else (b, make_doc(R), "list"))
+                for b in R.sample(burst, 10):
+                    mine.append((b, [], "list"))
             else:
                 mine.append((gen_query_text(R), make_doc(R), R.choice(["list", "step", "handoff"])))
+        # one compiled query evaluated by every thread at the same time on larger documents, a few rounds
+        for text in HEAVY:
+            if text in shared:
+                big = [{"id": i, "name": R.choice(["abc", "xyz", "ab", "b", "cab"]) + str(i % 7), "s": R.choice(["b", "x", "ab"]), "price": R.randint(0, 9)} for i in range(R.randint(25, 50))]
+                doc = big if text.startswith("$[") else {"items": big, "limit": R.randint(2, 7)}
+                for _ in range(2):
+                    mine.append((text, doc, "shared-step"))
         jobs.append(mine)
     # sequential reference (fresh environment, no threads)
     ref_env = JSONPathEnvironment()
@@ -349,7 +361,7 @@ def thread_run(jp, rec, R, run_id):
         except Exception as e:  # noqa: BLE001
             results[tt][jj] = ("err", type(e).__name__)
 
-    inj = YieldInjector(pkg, "%s/%d" % (run_id, 1), R.choice([0.02, 0.1, 0.3]))
+    inj = YieldInjector(pkg, "%s/%d" % (run_id, 1), R.choice([0.02, 0.1, 0.3, 0.5]))
     old = sys.getswitchinterval()
     sys.setswitchinterval(1e-6)
     inj.start()
